@@ -407,6 +407,89 @@ def r17_7(ctx, counts) -> RuleResult:
     return res
 
 
+def r17_8(ctx, counts) -> RuleResult:
+    """JSON output: map entries and array members are written by the same rules"""
+    model: Model = ctx.model
+    res = RuleResult(
+        'R17.8', 'JSON-MEMBER-SIBLINGS',
+        'In the JSON output method a map entry value and an array member are the same kind of '
+        'thing (Serialization 3.1 §9.1.? : an empty sequence is written as null). In the encoder '
+        'of serialization.serialize_to_json the branch for XPathMap and the branch for XPathArray '
+        'both map an empty sequence to None: each contains a conditional that yields None for '
+        'an empty list, or both call the same local helper that does. (The array branch did, the '
+        'map branch did not: serialize(map{"a": ()}) was {"a":[]}.) Duplicate names are detected '
+        'on the names as written: the membership test of the duplicate check is applied to a '
+        'string form of the key, not to the key itself (1 and "1" are both "1").')
+    mod = model.module('elementpath.serialization')
+    top = mod.toplevel_function('serialize_to_json')
+    if top is None:
+        raise AnalysisError('serialization.serialize_to_json vanished')
+    default = [g for g in mod.functions.values() if g.name == 'default' and g.cls is not None
+               and g.parent is top or (g.name == 'default' and g.cls is not None
+                                       and g.cls.name == 'XPathEncoder')]
+    if not default:
+        raise AnalysisError('serialize_to_json: XPathEncoder.default not located')
+    d = default[0]
+    helpers = {g.name: g for g in mod.functions.values() if g.parent is top and g.cls is None}
+
+    def yields_none_for_empty(node: ast.AST) -> bool:
+        for x in ast.walk(node):
+            if isinstance(x, ast.IfExp) and any(
+                    isinstance(b, ast.Constant) and b.value is None for b in (x.body, x.orelse)):
+                return True
+            if isinstance(x, ast.If) and any(
+                    isinstance(r, ast.Return) and isinstance(r.value, ast.Constant)
+                    and r.value.value is None for b in x.body for r in ast.walk(b)):
+                return True
+        return False
+    helper_ok = {n_: yields_none_for_empty(g.node) for n_, g in helpers.items()}
+    branches = {}
+    for st in ast.walk(d.node):
+        if isinstance(st, ast.If) and isinstance(st.test, ast.Call) \
+                and dotted(st.test.func) == 'isinstance' and len(st.test.args) == 2:
+            cname = stmt_text(st.test.args[1])
+            if cname in ('XPathMap', 'XPathArray'):
+                branches[cname] = st.body
+    if set(branches) != {'XPathMap', 'XPathArray'}:
+        raise AnalysisError(f'XPathEncoder.default: branches located {sorted(branches)}')
+    n = 0
+    for cname, body in sorted(branches.items()):
+        n += 1
+        own = any(yields_none_for_empty(b) for b in body)
+        via = [c for b in body for c in ast.walk(b) if isinstance(c, ast.Call)
+               and isinstance(c.func, ast.Name) and helper_ok.get(c.func.id)]
+        ok = own or bool(via)
+        res.instances.append(f'{d.key}: branch {cname}: empty sequence -> null: {ok}')
+        if ok:
+            res.ok()
+        else:
+            res.fail(finding('R17.8', d, body[0], f'{cname}: empty sequence not written as null',
+                             f'the {cname} branch of the JSON encoder writes its members as they '
+                             f'are: an empty sequence becomes [] instead of null, unlike in the '
+                             f'sibling branch'))
+    # duplicate names on the written form
+    mb = branches['XPathMap']
+    tests = [x for b in mb for x in ast.walk(b) if isinstance(x, ast.Compare) and len(x.ops) == 1
+             and isinstance(x.ops[0], (ast.In, ast.NotIn))]
+    loop_keys = {t.elts[0].id for b in mb for lp in ast.walk(b) if isinstance(lp, ast.For)
+                 for t in [lp.target] if isinstance(t, ast.Tuple) and t.elts
+                 and isinstance(t.elts[0], ast.Name)}
+    for t in tests:
+        n += 1
+        raw = isinstance(t.left, ast.Name) and t.left.id in loop_keys
+        res.instances.append(f'{d.key}: duplicate check `{stmt_text(t)[:40]}` on the written '
+                             f'name: {not raw}')
+        if not raw:
+            res.ok()
+        else:
+            res.fail(finding('R17.8', d, t, 'duplicate names checked on the keys',
+                             f'`{stmt_text(t)[:40]}` looks the key itself up: the keys 1 and "1" '
+                             f'are different keys but the same JSON name, so {{"1":..,"1":..}} is '
+                             f'written without SERE0022'))
+    counts['json_member_rules'] = n
+    return res
+
+
 def run(ctx) -> dict:
     counts: dict[str, int] = {}
 
@@ -434,7 +517,8 @@ def run(ctx) -> dict:
     state = r19_5(ctx, counts, lambda f: f.module.name == 'elementpath.serialization', 0)
     return {
         'results': [r1, r17_2(ctx, counts), r17_3(ctx, counts), r17_4(ctx, counts), r17_5(ctx, counts),
-                    r17_6(ctx, counts), r17_7(ctx, counts), pure, state]
+                    r17_6(ctx, counts), r17_7(ctx, counts), r17_8(ctx, counts),
+                    pure, state]
         + _shared(ctx, counts),
         'counts': counts,
         'explanation':
